@@ -857,9 +857,10 @@ def main(argv) -> int:
             for job in pending:
                 job.cancel()
     finally:
-        pool.shutdown(wait=False, cancel_futures=True)
         # do not let dropped models keep the interpreter alive at exit
-        for proc in list(getattr(pool, "_processes", {}).values()):
+        leftover = list((getattr(pool, "_processes", None) or {}).values())
+        pool.shutdown(wait=False, cancel_futures=True)
+        for proc in leftover:
             try:
                 proc.terminate()
             except Exception:
